@@ -288,6 +288,10 @@ type Typedef struct {
 	// resolving is set while the typedef is being resolved, to detect a
 	// typedef that is defined in terms of itself.
 	resolving bool
+	// resolved and resolvePass record that, and in which pass (see
+	// typeDictionary.pass), resolve filled in YangType.
+	resolved    bool
+	resolvePass int
 }
 
 func (Typedef) Kind() string             { return "typedef" }
@@ -318,13 +322,14 @@ type Type struct {
 
 	YangType *YangType
 
-	// resolveFailed is set when resolving the type reported errors; such a
-	// type is resolved again by the next Process.  resolveErrs holds those
-	// errors and resolvePass the pass (see typeDictionary.pass) they were
-	// found in: within one pass the resolution is not repeated.
-	resolveFailed bool
-	resolveErrs   []error
-	resolvePass   int
+	// resolved is set once resolve has filled in YangType; resolveErrs holds
+	// the errors it found and resolvePass the pass (see typeDictionary.pass)
+	// it ran in.  A resolution holds for one pass: the next Process resolves
+	// the type again, because what the type refers to may have changed (a
+	// missing module or a newer revision may have been loaded).
+	resolved    bool
+	resolveErrs []error
+	resolvePass int
 }
 
 func (Type) Kind() string             { return "type" }
